@@ -2,7 +2,7 @@ import SqVerif.VNetWFNew
 /-
 L2 — `remote_send_qubit` / `remote_add_qubit` preserve well-formedness (C02).
 -/
-namespace SqVerif.VNet
+namespace SqVerif.VNet.WFP
 open List
 
 /-- the state after a successful `remote_send_qubit` of handle `h` (record `vq`) to node `b` (record `nb`) -/
@@ -321,4 +321,4 @@ theorem wfp_stepSend {s : Net} (w : WFp none s) (h b : Nat) : WFp none (stepSend
           · rw [e]; exact w
       · rw [o3 vq hv hact hb]; exact w
 
-end SqVerif.VNet
+end SqVerif.VNet.WFP
